@@ -23,6 +23,7 @@ CONSTANTS
   DumpMod = 1
   NRepl = 17
   RichOnly = FALSE
+  NeedStruct = FALSE
   MaxRich <- Unlimited
   PKinds <- KStructCmt
   MaxEdits = 3
